@@ -4,7 +4,7 @@ from props.common import *  # noqa: F401,F403
 
 SIM = [f"{G}:BaseGHE._simulate_detailed", f"{G}:GHE.simulate#hybrid-body", f"{G}:GHE.simulate#hourly-body-fresh", f"{G}:GHE.simulate#hourly-body-after-another-simulation"]
 GF = "ghedesigner.gfunction"
-FUNCTIONS = (SIM + [f"{G}:BaseGHE.grab_g_function#body", f"{GF}:GFunction.borehole_radius_correction", f"{G}:BaseGHE.combine_sts_lts", f"{G}:GHE.size", f"{G}:GHE.size#hourly", f"{S}:Bisection1D.calculate_excess", f"{S}:Bisection1D.initialize_ghe", f"{S}:RowWiseModifiedBisectionSearch.initialize_ghe#body",
+FUNCTIONS = (SIM + [f"{G}:BaseGHE.grab_g_function#body", f"{G}:BaseGHE.compute_g_functions#body", f"{GF}:GFunction.borehole_radius_correction", f"{G}:BaseGHE.combine_sts_lts", f"{G}:GHE.size", f"{G}:GHE.size#hourly", f"{S}:Bisection1D.calculate_excess", f"{S}:Bisection1D.initialize_ghe", f"{S}:RowWiseModifiedBisectionSearch.initialize_ghe#body",
                     f"{S}:Bisection1D.__init__#search-nocap", f"{S}:Bisection1D.__init__#search-cap", f"{S}:Bisection1D.__init__#nosearch"]
              + [f"{M}:GHEManager.find_design#DesignNearSquare-nocap", f"{M}:GHEManager.find_design#DesignNearSquare-cap",
                 f"{M}:GHEManager.find_design#DesignRectangle-nocap", f"{M}:GHEManager.find_design#DesignRectangle-cap"]
